@@ -95,7 +95,7 @@ def rat_expr(n, env):
         return f"(ratOf {lean_int(fr.numerator)} {fr.denominator})"
     if isinstance(n, ast.BinOp) and type(n.op) in (ast.Add, ast.Sub, ast.Mult, ast.Div):
         op = {ast.Add: "+", ast.Sub: "-", ast.Mult: "*", ast.Div: "/"}[type(n.op)]
-        return f"({rat_expr(n.left, env)} {op} {rat_expr(n.right, env)})"
+        return f"(rnd ({rat_expr(n.left, env)} {op} {rat_expr(n.right, env)}))"     # one float operation
     raise Missing(f"rational expression {ast.unparse(n)}")
 
 
@@ -478,9 +478,9 @@ def generate(repo):
     rep["circle"] = dict(params=cp, r=c["r_src"], half_w=c[p0], half_h=c[p1])
     out.append(f"def circle_params : List String := {str_list(cp)}")
     out.append(f"def circle_r_src : String := {lean_str(c['r_src'])}")
-    out.append(f"/-- what `circle_kernel` passes as `{p0}` / `{p1}` of `_ellipse_kernel` -/")
-    out.append(f"def circle_{p0} (r {cp[0]} {cp[1]} : Rat) : Int := {c[p0]}")
-    out.append(f"def circle_{p1} (r {cp[0]} {cp[1]} : Rat) : Int := {c[p1]}")
+    out.append(f"/-- what `circle_kernel` passes as `{p0}` / `{p1}` of `_ellipse_kernel` (`rnd` = rounding of one float operation) -/")
+    out.append(f"def circle_{p0} (rnd : Rat → Rat) (r {cp[0]} {cp[1]} : Rat) : Int := {c[p0]}")
+    out.append(f"def circle_{p1} (rnd : Rat → Rat) (r {cp[0]} {cp[1]} : Rat) : Int := {c[p1]}")
     out.append("")
 
     # --- annulus
